@@ -1,0 +1,106 @@
+//go:build verif
+
+// Contracts for package utilities (comment-only; read by /verif's VC generator).
+package utilities
+
+// The map is a list of registrations; a lookup answers with the first interval (most recently
+// registered, the list is prepended to) that covers the character.
+//
+//@ rec firstMatch(s seq[*CharReferenceInterval], st fmap[rune], en fmap[rune], rf fmap[any], i int, ch rune) any
+//@     decreases len(s) - i =
+//@     (i < 0 || i >= len(s)) ? nil :
+//@         ((st[s[i]] <= ch && ch <= en[s[i]]) ? rf[s[i]] : firstMatch(s, st, en, rf, i + 1, ch))
+//
+//@ spec others(m *CharReferenceMap, i int, ch rune) any =
+//@     firstMatch(seq(m.otherIntervals), heapof(CharReferenceInterval, start), heapof(CharReferenceInterval, end),
+//@                heapof(CharReferenceInterval, reference), i, ch)
+//
+// abstract view: the reference a lookup of ch must return
+//@ spec view(m *CharReferenceMap, ch rune) any =
+//@     ch < 0 ? nil : (ch < 256 ? m.initialInterval[ch] : others(m, 0, ch))
+//
+//@ pred mapInv(m *CharReferenceMap) = m != nil && len(m.initialInterval) == 256 &&
+//@     (forall i int :: 0 <= i && i < len(m.otherIntervals) ==>
+//@         m.otherIntervals[i] != nil && allocated(m.otherIntervals[i]))
+//
+// prepending one interval shifts every later match by one
+//@ lemma shift(s seq[*CharReferenceInterval], t seq[*CharReferenceInterval], st fmap[rune], en fmap[rune], rf fmap[any],
+//@             st2 fmap[rune], en2 fmap[rune], rf2 fmap[any], i int)
+//@   tags C17
+//@   requires len(t) == len(s) + 1 && 0 <= i && i <= len(s)
+//@   requires forall j int :: 0 <= j && j < len(s) ==>
+//@       t[j+1] == s[j] && st2[s[j]] == st[s[j]] && en2[s[j]] == en[s[j]] && rf2[s[j]] == rf[s[j]]
+//@   ensures forall ch rune :: firstMatch(t, st2, en2, rf2, i + 1, ch) == firstMatch(s, st, en, rf, i, ch)
+//@   decreases len(s) - i
+//@   induction s, t, st, en, rf, st2, en2, rf2, i + 1
+//
+//@ func NewCharReferenceInterval
+//@   requires start <= end
+//@   ensures[C17] fresh(result) && result.start == start && result.end == end && result.reference == reference
+//@   assigns nothing
+//@   nopanic
+//
+//@ func (c *CharReferenceInterval) InRange
+//@   requires c != nil
+//@   ensures[C17] result == (c.start <= symbol && symbol <= c.end)
+//@   assigns nothing
+//@   nopanic
+//
+//@ func (c *CharReferenceInterval) Reference
+//@   requires c != nil
+//@   ensures[C17] result == c.reference
+//@   assigns nothing
+//@   nopanic
+//
+//@ func NewCharReferenceMap
+//@   ensures[C17] fresh(result) && mapInv(result)
+//@   ensures[C17] forall ch rune :: view(result, ch) == nil
+//@   assigns nothing
+//@   nopanic
+//
+//@ func (c *CharReferenceMap) Clear
+//@   requires c != nil
+//@   ensures[C17] mapInv(c)
+//@   ensures[C17] forall ch rune :: view(c, ch) == nil
+//@   assigns c.initialInterval, c.otherIntervals
+//@   nopanic
+//@   loop 0
+//@     invariant 0 <= index && index <= 256 && len(c.initialInterval) == 256 && fresh(c.initialInterval)
+//@     invariant forall j int :: 0 <= j && j < 256 ==> c.initialInterval[j] == nil
+//@     decreases 256 - index
+//
+// "the most recent registration whose range contains it"; a registration reaches up to U+FFFE
+//@ func (c *CharReferenceMap) AddInterval
+//@   requires mapInv(c) && 0 <= start && start <= end && start <= 0xfffe
+//@   ensures[C17] mapInv(c)
+//@   ensures[C17] forall ch rune :: view(c, ch) ==
+//@       ((start <= ch && ch <= min(end, 0xfffe)) ? reference : old(view(c, ch)))
+//@   assigns c.initialInterval[*], c.otherIntervals
+//@   nopanic
+//@   use shift(old(seq(c.otherIntervals)), seq(c.otherIntervals),
+//@             old(heapof(CharReferenceInterval, start)), old(heapof(CharReferenceInterval, end)), old(heapof(CharReferenceInterval, reference)),
+//@             heapof(CharReferenceInterval, start), heapof(CharReferenceInterval, end), heapof(CharReferenceInterval, reference), 0) at exit if len(c.otherIntervals) == len(old(c.otherIntervals)) + 1
+//@   loop 0
+//@     invariant old(start) <= index && (index == old(start) || (index <= 256 && index <= end + 1)) && end == min(old(end), 0xfffe)
+//@     invariant c.initialInterval == old(c.initialInterval) && c.otherIntervals == old(c.otherIntervals)
+//@     invariant forall j int :: 0 <= j && j < 256 ==>
+//@         c.initialInterval[j] == ((old(start) <= j && j < index) ? reference : old(c.initialInterval[j]))
+//@     invariant forall i int :: 0 <= i && i < len(c.otherIntervals) ==> c.otherIntervals[i] == old(c.otherIntervals[i])
+//@     decreases 256 - index
+//
+//@ func (c *CharReferenceMap) AddDefaultInterval
+//@   requires mapInv(c)
+//@   ensures[C17] mapInv(c)
+//@   ensures[C17] forall ch rune :: view(c, ch) == ((0 <= ch && ch <= 0xfffe) ? reference : old(view(c, ch)))
+//@   assigns c.initialInterval[*], c.otherIntervals
+//@   nopanic
+//
+//@ func (c *CharReferenceMap) Lookup
+//@   requires mapInv(c)
+//@   ensures[C17] result == view(c, symbol)
+//@   assigns nothing
+//@   nopanic
+//@   loop 0
+//@     invariant -1 <= rangeindex && rangeindex < len(c.otherIntervals) && symbol >= 256
+//@     invariant others(c, 0, symbol) == others(c, rangeindex + 1, symbol)
+//@     decreases len(c.otherIntervals) - rangeindex
